@@ -642,6 +642,47 @@ func runC17(c *eng.Ctx) {
 	// F41: an order-by item whose expression is a duration, `*` or a number has no expression at all
 	operandsPresent("completeSortField", []string{"sql/stmt.OrderByExpr.Expr"})
 
+	// every number the parser puts into a statement is the result of a (checked) conversion of the text: a value the parser COMPUTES
+	// (constant folding: 1/0, 0/0, an overflowing product) may be Inf / NaN, which has no JSON form
+	c.Rule("PROV", "sql{number literals of a parsed statement are converted from the text}", func() {
+		n := 0
+		for _, fn := range p.FuncsWithPrefix("sql.") {
+			for _, s := range p.SitesDirect(fn, eng.StoreField("sql/stmt.NumberLiteral.Val")) {
+				n++
+				v := s.Instr.(*ssa.Store).Val
+				conv := eng.DependsOn(v, func(x ssa.Value) bool {
+					cl, ok := x.(*ssa.Call)
+					return ok && cl.Common().StaticCallee() != nil && cl.Common().StaticCallee().Name() == "ParseFloat"
+				})
+				arith := eng.DependsOn(v, func(x ssa.Value) bool {
+					bo, ok := x.(*ssa.BinOp)
+					if !ok {
+						return false
+					}
+					switch bo.Op {
+					case token.ADD, token.SUB, token.MUL, token.QUO:
+						bt, isBasic := bo.Type().Underlying().(*types.Basic)
+						return isBasic && bt.Info()&types.IsFloat != 0
+					}
+					return false
+				})
+				finite := false
+				conds, _ := eng.GuardingConds(fn, s.Instr)
+				for _, cd := range conds {
+					if eng.DependsOn(cd, func(x ssa.Value) bool {
+						cl, ok := x.(*ssa.Call)
+						return ok && cl.Common().StaticCallee() != nil && (cl.Common().StaticCallee().Name() == "IsInf" || cl.Common().StaticCallee().Name() == "IsNaN")
+					}) {
+						finite = true
+					}
+				}
+				c.Check(conv && !arith || finite, fmt.Sprintf("value-from-the-text@%s[%d]", p.FuncKey(fn), n), s.Instr, fn,
+					"the value of a number literal is what ParseFloat returned for the text (its error is examined, F37), or it is tested to be finite", "value "+p.Desc(v))
+			}
+		}
+		c.Check(n >= 1, "number-literals-built", nil, nil, "the parser builds number literals", fmt.Sprintf("%d", n))
+	})
+
 	// F37: a number the parser can not represent is refused, not replaced (an overflowing literal becomes +Inf, which has no JSON form)
 	c.Rule("ERRFLOW", "sql{a literal that does not convert is a parse error}", func() {
 		n := 0
